@@ -40,6 +40,7 @@ static struct {
 static int g_next_id[16];
 static char g_stream_names[16][8];
 
+void vrt_set_tid(int t) { t_tid = t; }
 int vrt_tid(void) {
     if (t_tid < 0)
         t_tid = __sync_fetch_and_add(&g_next_tid, 1);
